@@ -19,7 +19,7 @@ from pyfront import shimmed
 PROP = 'C13'
 ALL = ['ber', 'der', 'per', 'uper', 'oer', 'jer', 'xer', 'gser']
 TEMPLATES = ['seq-opt', 'combo-bits-default', 'combo-components-of', 'combo-ext-implied', 'combo-import',
-             'combo-uper6', 'enum-ext', 'c13-enum-default']
+             'combo-uper6', 'enum-ext', 'c13-enum-default', 'defaults-by-ref-small', 'components-of-chain']
 MORE = ['combo-ref', 'combo-default-shared', 'tag-app', 'combo-recursive', 'seq-ext-group', 'set-tags',
         'combo-set-choice', 'int-named']
 
@@ -34,6 +34,8 @@ def histories(tier):
         out.append([('compile', c, ne), ('pformat',)])
         out.append([('compile', c, ne), ('deepcopy',)])
     out.append([('pformat',)])
+    out.append([('compile', 'ber', False), ('compile', 'ber', False)])
+    out.append([('compile', 'uper', False), ('compile', 'jer', False), ('compile', 'oer', False)])
     if tier == 'thorough':
         for c1, n1 in (('ber', True), ('uper', False), ('jer', True), ('oer', False), ('xer', True)):
             for c2, n2 in (('per', False), ('der', True), ('gser', True), ('oer', True)):
